@@ -6474,6 +6474,15 @@ void TMCG_OpenPGP_Keyring::Reduce
 			keys_by_keyid.erase(kid_str);
 			keys_by_keyid.erase("0x"+kid_str);
 		}	
+		// remove remaining aliases, e.g. of subkeys dropped by pub->Reduce()
+		for (std::map<std::string, TMCG_OpenPGP_Pubkey*>::iterator
+		     it = keys_by_keyid.begin(); it != keys_by_keyid.end(); )
+		{
+			if (it->second == key)
+				keys_by_keyid.erase(it++);
+			else
+				++it;
+		}
 		delete key;
 		keys.erase(rmv[i]); // fpr_str has been reused for the subkeys
 	}
